@@ -969,3 +969,60 @@ fault("c20-refusal-written-outside-the-try", "C20", "R20a",
       (SERVER, "        protohandler = ProtocolMultiplexer.getProtocol(\n            request, self.server, self, self.rfile, self.wfile, self.server.config\n        )\n        try:",
        "        if len(request) > 65536:\n            self.wfile.write(b\"3Request line too long\\t\\terror.host\\t0\\r\\n\")\n            return\n"
        "        protohandler = ProtocolMultiplexer.getProtocol(\n            request, self.server, self, self.rfile, self.wfile, self.server.config\n        )\n        try:"))
+
+# ======================================================================= round h (R03g long status, R04j, R05l, R06k, R07n, R10g, R11a failure path,
+# R12a in the file-system view, R14e, R15i/R16k, R16l, R17m/R18g)
+fault("c03-status-cut-at-a-byte-offset", "C03", "R03g",
+      (GEM, '''        self.wfile.write(f"{code} {meta}\\r\\n".encode(errors="backslashreplace"))''',
+       '''        self.wfile.write(f"{code} ".encode() + meta.encode(errors="backslashreplace")[:1024] + b"\\r\\n")'''))
+twin("c03-twin-status-cut-at-a-character", "C03",
+     (GEM, '''        meta = re.sub(r"[\\r\\n]+", " ", meta)
+''', '''        meta = re.sub(r"[\\r\\n]+", " ", meta)[:4096]
+'''))
+fault("c04-entries-remembered-per-selector", "C04", "R04j",
+      (FILE, "    def getentry(self):\n        if not self.entry:", "    _entries = {}\n\n    def getentry(self):\n        if self.selector in self._entries:\n            return self._entries[self.selector]\n        if not self.entry:"),
+      (FILE, "        return self.entry\n", "        self._entries[self.selector] = self.entry\n        return self.entry\n"))
+fault("c06-rendered-abstracts-remembered", "C06", "R06k",
+      (PBASE, "    def renderabstract(self, abstractstring: str) -> str:\n", "    _abstracts = {}\n\n    def renderabstract(self, abstractstring: str) -> str:\n        if abstractstring in self._abstracts:\n            return self._abstracts[abstractstring]\n"),
+      (PBASE, "            retval += self.renderobjinfo(absentry)\n        return retval\n", "            retval += self.renderobjinfo(absentry)\n        self._abstracts[abstractstring] = retval\n        return retval\n"))
+fault("c07-ignore-pattern-from-an-offset", "C07", "R07n",
+      (DIR, "        return not re.search(ignorepatt, pattern)\n", "        return not re.compile(ignorepatt).search(pattern, len(self.selector))\n"))
+twin("c07-twin-ignore-pattern-compiled", "C07",
+     (DIR, "        return not re.search(ignorepatt, pattern)\n", "        return re.compile(ignorepatt).search(pattern) is None\n"))
+fault("c10-expired-cache-touched", "C10", "R10g",
+      (DIR, "            self.fromcache = True\n            return True\n        return False\n", "            self.fromcache = True\n            return True\n        os.utime(self.vfs.getfspath(self.cachename))\n        return False\n"),
+      (DIR, "import pickle\n", "import os\nimport pickle\n"))
+fault("c11-damaged-cache-unlinked-unguarded", "C11", "R11a",
+      (DIR, "                # Truncated or corrupt cache file: regenerate the listing.\n                return False\n",
+       "                # Truncated or corrupt cache file: regenerate the listing.\n                self.vfs.unlink(self.cachename)\n                return False\n"))
+twin("c11-twin-damaged-cache-unlinked-guarded", "C11",
+     (DIR, "                # Truncated or corrupt cache file: regenerate the listing.\n                return False\n",
+      "                # Truncated or corrupt cache file: regenerate the listing.\n                try:\n                    self.vfs.unlink(self.cachename)\n                except OSError:\n                    pass\n                return False\n"))
+fault("c14-empty-cache-file-escapes", "C14", "R14e",
+      (DIR, "            except Exception:\n                # Truncated or corrupt cache file", "            except (OSError, pickle.UnpicklingError):\n                # Truncated or corrupt cache file"))
+fault("c15-entry-without-the-handlers-vfs", "C15", "R15i",
+      (FILE, "self.entry.populatefromfs(self.getselector(), self.statresult, vfs=self.vfs)", "self.entry.populatefromfs(self.getselector(), self.statresult)"))
+fault("c16-entry-without-the-handlers-vfs", "C16", "R16k",
+      (DIR, "self.entry.populatefromfs(self.getselector(), self.statresult, vfs=self.vfs)", "self.entry.populatefromfs(self.getselector(), self.statresult)"))
+fault("c16-member-read-by-request-path", "C16", "R16l",
+      (ZIP, "        fp = self.zip.open(item)\n", "        fp = self.zip.open(fspath)\n"))
+fault("c17-define-globals-first", "C17", "R17m",
+      (TALPY, '''		foundLocals = 0
+		for isLocal, varName, varPath in args:
+			result = self.context.evaluate (varPath, self.originalAttributes)
+			if (isLocal):
+''', '''		foundLocals = 0
+		for isLocal, varName, varPath in args:
+			if (not isLocal):
+				self.context.addGlobal (varName, self.context.evaluate (varPath, self.originalAttributes))
+		for isLocal, varName, varPath in args:
+			if (not isLocal):
+				continue
+			result = self.context.evaluate (varPath, self.originalAttributes)
+			if (isLocal):
+'''))
+fault("c18-global-keyword-sticks", "C18", "R18g",
+      (TALPY, "\t\t\tstmtBits = defineStmt.split (' ')\n\t\t\tisLocal = 1\n", "\t\t\tstmtBits = defineStmt.split (' ')\n"),
+      (TALPY, "\t\tcommandArgs = []\n\t\t# We only want to match semi-colons that are not escaped\n", "\t\tcommandArgs = []\n\t\tisLocal = 1\n\t\t# We only want to match semi-colons that are not escaped\n"))
+twin("c17-twin-define-scope-named", "C17",
+     (TALPY, "\t\t\tstmtBits = defineStmt.split (' ')\n\t\t\tisLocal = 1\n", "\t\t\tstmtBits = defineStmt.split (' ')\n\t\t\tLOCAL = 1\n\t\t\tisLocal = LOCAL\n"))
